@@ -36,3 +36,5 @@ pub mod c06;
 pub mod c01;
 #[cfg(feature = "c13")]
 pub mod c13;
+#[cfg(feature = "c08")]
+pub mod c08;
